@@ -43,11 +43,17 @@ class RINGToken(object):
 
 # TODO: Resolve unknown name 'cmp'
 
-    def __cmp__(self, other):
+    def __eq__(self, other):
         if isinstance(other, RINGToken):
             return eq(self.name, other.name)
         else:
             return eq(self.name, other)
+
+    def __ne__(self, other):
+        return not self == other
+
+    def __hash__(self):
+        return hash(self.name)
 
     def __str__(self):
         return self.name
